@@ -36,6 +36,12 @@ Proof.
   repeat split; try lia; try assumption; destruct Hl as [-> | ->]; lia.
 Qed.
 
+Lemma wf_font_raw f : wf_font f -> f_len f = 256%Z -> wf_raw_font f.
+Proof.
+  intros (Hw & Hh & Hl & Hn & Hr) E. unfold wf_raw_font. rewrite E in Hn.
+  repeat split; try lia; assumption.
+Qed.
+
 (* ------------------------------------------------------------------------------------------ glyph chunking *)
 Lemma rows_concat_len h gl : rows_ok h gl -> lenN (concat gl) = h * lenN gl.
 Proof.
@@ -316,6 +322,16 @@ Section Dcs.
     intros Hwf Hs. exists (concat (f_glyphs f)). split; [apply convert_raw; assumption|].
     intro Hn. rewrite load_dcs_string by assumption. rewrite from_bytes_raw by assumption. reflexivity.
   Qed.
+
+  Lemma dcs_roundtrip_full slot f : wf_raw_font f -> slot < 18446744073709551616 ->
+    exists raw, convert_to_u8_data f = Ok raw /\
+      encode_as_ansi b64_enc slot f = Ok ([27; 80] ++ dcs_string b64_enc slot raw ++ [27; 92]) /\
+      (sniffs_as_psf raw = false -> load_custom_font b64_dec (dcs_string b64_enc slot raw) = Ok (slot, f)).
+  Proof.
+    intros Hwf Hs. destruct (dcs_roundtrip_proof slot f Hwf Hs) as (raw & E & R).
+    exists raw. split; [exact E|]. split; [|exact R].
+    unfold encode_as_ansi. rewrite E. reflexivity.
+  Qed.
 End Dcs.
 
 (* the excluded class is not empty: a raw 8x1 font whose first rows are 36 04 00 01 loads as a 252 glyph PSF1 font *)
@@ -438,4 +454,31 @@ Proof.
   constructor.
   - unfold lenN in *. rewrite firstn_length. lia.
   - apply IH. unfold lenN in *. rewrite skipn_length. lia.
+Qed.
+
+Lemma create_8_rows_proof w h data : rows_ok h (f_glyphs (create_8 w h data)).
+Proof. unfold create_8, glyphs_from_u8_data. cbn [f_glyphs]. apply glyph_loop_rows. reflexivity. Qed.
+
+Lemma known_1_witness_proof :
+  exists f, wf_raw_font f /\ exists raw, convert_to_u8_data f = Ok raw /\ sniffs_as_psf raw = true.
+Proof.
+  exists collision_font. split; [exact collision_font_wf|].
+  exists (concat (f_glyphs collision_font)). split; [apply convert_raw; exact collision_font_wf | exact collision_font_sniffs].
+Qed.
+
+(* ------------------------------------------------------------------------------------------ samples *)
+Lemma sample_rows len (F : N -> list N) : (forall i, lenN (F i) = 2) -> rows_ok 2 (map F (nrange len)).
+Proof. intro H. unfold rows_ok. apply Forall_forall. intros g Hg. apply in_map_iff in Hg. destruct Hg as (i & <- & _). apply H. Qed.
+
+Lemma nrange_aux_length k : forall s, length (nrange_aux k s) = k.
+Proof. induction k as [|k IH]; intro s; [reflexivity|]. cbn [nrange_aux length]. rewrite IH. reflexivity. Qed.
+
+Lemma sample_font_wf_gen len (F : N -> list N) : (len = 256 \/ len = 512) -> (forall i, lenN (F i) = 2) ->
+  wf_font (mkFont 8 2 (Z.of_N len) (map F (nrange len))).
+Proof.
+  intros Hl HF. unfold wf_font. cbn [f_w f_h f_len f_glyphs].
+  split; [reflexivity|]. split; [lia|]. split; [destruct Hl as [-> | ->]; [left | right]; reflexivity|].
+  split.
+  - unfold lenN, nrange. rewrite map_length, nrange_aux_length. lia.
+  - apply sample_rows. exact HF.
 Qed.
